@@ -12,88 +12,6 @@ import (
 // decomposition without P, and the single-modulus 32-bit fast path (whose un-reduced 64-bit accumulation is tracked as
 // a range obligation).  Blind rotation (LUT scaling, mod-switch) is outside.
 
-type vCtx struct {
-	Params rlwe.Parameters
-	Kgen   *rlwe.KeyGenerator
-	Sk     *rlwe.SecretKey
-	Enc    *Encryptor
-	Dec    *rlwe.Decryptor
-	Eval   *Evaluator
-}
-
-type vCase struct {
-	lit, nat          rlwe.ParametersLiteral
-	levelQ, levelP, w int
-	name              string
-}
-
-func vCases() []vCase {
-	return []vCase{
-		{rlwe.ParametersLiteral{LogN: 4, Q: []uint64{97, 193}, P: []uint64{257}, NTTFlag: true}, rlwe.ParametersLiteral{LogN: 4, LogQ: []int{45, 35}, LogP: []int{40}, NTTFlag: true}, 1, 0, 0, "singleP"},
-		{rlwe.ParametersLiteral{LogN: 4, Q: []uint64{97, 12289, 193}, P: []uint64{257, 769}, NTTFlag: true}, rlwe.ParametersLiteral{LogN: 4, LogQ: []int{45, 35, 35}, LogP: []int{40, 40}, NTTFlag: true}, 2, 1, 0, "multipleP"},
-		{rlwe.ParametersLiteral{LogN: 4, Q: []uint64{97, 193}, NTTFlag: true}, rlwe.ParametersLiteral{LogN: 4, LogQ: []int{45, 35}, NTTFlag: true}, 1, -1, 4, "noP-bitdecomp"},
-		{rlwe.ParametersLiteral{LogN: 4, Q: []uint64{12289}, NTTFlag: true}, rlwe.ParametersLiteral{LogN: 4, Q: []uint64{0x7fff801}, NTTFlag: true}, 0, -1, 7, "32bit-path"},
-		{rlwe.ParametersLiteral{LogN: 4, Q: []uint64{12289}, NTTFlag: true}, rlwe.ParametersLiteral{LogN: 4, Q: []uint64{0x7fff801}, NTTFlag: true}, 0, -1, 2, "32bit-path-narrow-digits"},
-		{rlwe.ParametersLiteral{LogN: 4, Q: []uint64{0x1fffffc1}, NTTFlag: true}, rlwe.ParametersLiteral{LogN: 4, Q: []uint64{0x1fffffc1}, NTTFlag: true}, 0, -1, 2, "32bit-path-29bit-prime-narrow-digits"},
-		// a single small Q with one auxiliary prime: NOT the 32-bit path (it ignores P)
-		{rlwe.ParametersLiteral{LogN: 4, Q: []uint64{12289}, P: []uint64{257}, NTTFlag: true}, rlwe.ParametersLiteral{LogN: 4, Q: []uint64{0x7fff801}, LogP: []int{30}, NTTFlag: true}, 0, 0, 7, "smallQ-oneP-bitdecomp"},
-		{rlwe.ParametersLiteral{LogN: 4, Q: []uint64{12289}, P: []uint64{257}, NTTFlag: true}, rlwe.ParametersLiteral{LogN: 4, Q: []uint64{0x7fff801}, LogP: []int{30}, NTTFlag: true}, 0, 0, 0, "smallQ-oneP"},
-		// (a single small Q without P and without power-of-two digits is not a usable parameterisation: one digit of the
-		// size of q makes the key-switch noise as large as q, whichever path computes it - not included)
-	}
-}
-
-func VerifSetup_Ctx(i int, algebraic bool) *vCtx {
-	cs := vCases()[i]
-	lit := cs.nat
-	if algebraic {
-		lit = cs.lit
-	}
-	params, err := rlwe.NewParametersFromLiteral(lit)
-	if err != nil {
-		panic(err)
-	}
-	c := &vCtx{Params: params, Kgen: rlwe.NewKeyGenerator(params)}
-	c.Sk = rlwe.NewSecretKey(params)
-	c.Enc = NewEncryptor(params, c.Sk)
-	c.Dec = rlwe.NewDecryptor(params, c.Sk)
-	c.Eval = NewEvaluator(params, nil)
-	return c
-}
-
-func vFillAtoms(r *ring.Ring, p ring.Poly, name string, class int) {
-	for k, s := range r.SubRings[:r.Level()+1] {
-		copy(p.Coeffs[k], vAtoms(name+"."+string(rune('0'+k)), class, s.Modulus, r.N()))
-	}
-}
-
-func vAssertNoiseFree(r *ring.Ring, a, b ring.Poly, isNTT bool, logBound int, id string) {
-	if vIsAlgebraic() {
-		for k, s := range r.SubRings[:r.Level()+1] {
-			vAssertNoiseFreeMod(a.Coeffs[k], b.Coeffs[k], s.Modulus, id)
-		}
-		return
-	}
-	d := r.NewPoly()
-	r.Sub(a, b, d)
-	if isNTT {
-		r.INTT(d, d)
-	}
-	coeffs := make([]*big.Int, r.N())
-	for i := range coeffs {
-		coeffs[i] = new(big.Int)
-	}
-	r.PolyToBigintCentered(d, 1, coeffs)
-	bound := new(big.Int).Lsh(big.NewInt(1), uint(logBound))
-	ok := true
-	for _, c := range coeffs {
-		if c.CmpAbs(bound) >= 0 {
-			ok = false
-		}
-	}
-	vAssert(ok, id)
-}
-
 func VerifH_C20_ExternalProduct() {
 	vExternalProducts(0, 5)
 	vExternalProducts(6, 8)
